@@ -111,8 +111,14 @@ def run_property(prop, tier, seed, only=None, jobs=None):
         with ctx.Pool(jobs) as pool:
             r1 = pool.map_async(_k1_worker, [(k, timeout_ms, tier) for k in ks], chunksize=1)
             r2 = pool.map_async(_task_worker, [(i, tier, seed) for i in tidx], chunksize=1)
-            k1 = r1.get()
-            tres = r2.get()
+            limit = 1500 if tier == 'quick' else 7200
+            try:
+                k1 = r1.get(timeout=limit)
+                tres = r2.get(timeout=limit)
+            except multiprocessing.TimeoutError:
+                pool.terminate()
+                print('CHECKER-ERROR: obligation sources did not finish within %d s' % limit)
+                return 3
     return finish(prop, tier, seed, k1, tres, t0)
 
 
@@ -193,7 +199,7 @@ def finish(prop, tier, seed, k1, tres, t0):
         else:
             undecided += 1
             undecided_list.append(a)
-    nobl = len(agg)
+    nobl = len(agg) - nbounded      # bounded stand-ins are reported separately, never as proof obligations
     # ---- output
     os.makedirs(os.path.join(ROOT, 'evidence'), exist_ok=True)
     rdir = os.path.join(ROOT, 'replays', prop)
@@ -256,7 +262,7 @@ def finish(prop, tier, seed, k1, tres, t0):
         return 3
     if undecided:
         return 2
-    if nobl == 0:
+    if nobl <= 0:
         print('CHECKER-ERROR: no obligations for property %s' % prop)
         return 3
     return 0
